@@ -61,6 +61,13 @@ def _witness(K, u, alg, op, args, raised):
     import pyref
     from fractions import Fraction
     x = args[-1] if op in ('div', 'mulinv', 'rdiv') else args[0]
+    if op == 'outertan':
+        # outertan = outersin * inverse(outercos): the element that has no inverse is outercos(x) (the library only PROPOSES
+        # the witness, TLC verifies it against its own outer cosine)
+        try:
+            x = args[0].outercos()
+        except Exception:   # noqa: BLE001
+            return None
     try:
         xd = {int(k): Fraction(K.coef_to_G(v).subs({})) for k, v in zip(x.keys(), x.values())}
     except Exception:   # noqa: BLE001  (generic operand: the null-blade rule of the spec applies)
